@@ -195,11 +195,17 @@ def run(sim, params):
                 d = SS.diff_trees(want, got)
                 if rec["status"] == "ok":
                     if d:
-                        if faulted and ncls == "plain":
+                        if faulted and not (d.endswith("executable bit differs") and d.count(";") == 0):
                             raise Violation("silent_partial_copy", f"{fault} was injected, transfer {rec['k']} ({pair}, {opts}) reported success but the destination on {loc.name} differs: {d}; "
                                             f"case={canon(info)}", signature=f"silent_partial_copy:{fault}:{group}")
+                        if rec["mode"] == "existing_dir" and d == "missing ''":
+                            hostdir = conn.real_path(loc.name, rec["dst"]) if conn is not None else rec["dst"]
+                            others = sorted(os.listdir(hostdir)) if os.path.isdir(hostdir) else []
+                            if others:
+                                raise Violation("destination_differs", f"transfer {rec['k']} ({pair}, {opts}) succeeded and registered {rec['final']!r} on {loc.name}, but the copy "
+                                                f"was created in that directory under another name: {others}; case={canon(info)}", signature=f"copy_misnamed_in_existing_dir:{'local' if conn is None else 'remote'}")
                         raise Violation("destination_differs", f"transfer {rec['k']} ({pair}, {opts}) succeeded but the destination {rec['final']!r} on {loc.name} differs: {d} ({err}); "
-                                        f"case={canon(info)}", signature=(f"name_not_verbatim:{ncls}:{group}" if ncls != "plain" else
+                                        f"case={canon(info)}", signature=(f"name_not_verbatim:{ncls}:{group}" if ncls != "plain" and "executable bit" not in d else
                                                    f"destination_differs:{group}:{rec['mode']}:{info['tree']['kind']}:{d.split(':')[-1].strip().split(' ')[0] if ':' in d else d.split(' ')[0]}"))
                     regs = dm.get_data_locations(rec["final"], deployment=loc.deployment, location_name=loc.name)
                     if not regs or not all(r.available.is_set() for r in regs):
